@@ -129,6 +129,27 @@ func checkC14(r *Run) {
 			r.Bad(v.rule, v.key, v.pos, v.reason)
 		}
 	}
+	// a fid that was unbound must read as unbound (Ent == nil) to operations already queued on its lock: the unbind
+	// helper removes the fid from the table *before* taking the lock, so Ent == nil is the only signal such an
+	// operation gets. (Ownership interpretation shared with C13; only the rules about the released entry are used.)
+	tsOwn, _ := runSessionTypestate(p, true)
+	okeys := []string{}
+	for k := range tsOwn.viol {
+		okeys = append(okeys, k)
+	}
+	sort.Strings(okeys)
+	nStale := 0
+	for _, k := range okeys {
+		v := tsOwn.viol[k]
+		if v.rule == "own/released-stays-bound" || v.rule == "own/use-after-release" {
+			nStale++
+			r.Bad("unbound-reads-nil", v.key, v.pos, v.reason+" — an operation queued on the fid's lock passes the Ent != nil guard and runs on the released entry after the remove/clunk returned (no sequential order explains that)")
+		}
+	}
+	if nStale == 0 {
+		r.Ok("unbound-reads-nil", "release helper and its callers: the released entry is cleared (Ent = nil) before the fid lock is dropped, on every path", token.NoPos, fmt.Sprintf("%d release events interpreted", tsOwn.releaseSites))
+	}
+	r.Floor("unbound-reads-nil", tsOwn.releaseSites, 3, "release events interpreted")
 	// E7a obligations
 	akeys := []string{}
 	for k := range ts.acc {
